@@ -9,6 +9,8 @@ PROP = dict(
         dict(module="MCClientResp", cfg="MCClientResp_asbuilt.cfg", expect_violation="InvOneClient", timeout=300, workers=2),
         # response wrappers recycled through a pool when the reader returns: a kept response shows another call (non-vacuity)
         dict(module="MCClientResp", cfg="MCClientResp_asbuilt_pool.cfg", expect_violation="InvRetained", timeout=300, workers=2),
+        # client.New hands one package-level registry map to every Runtime: editing one Runtime shows through another (non-vacuity)
+        dict(module="MCClientResp", cfg="MCClientResp_asbuilt_shared.cfg", expect_violation="InvIsolated", timeout=300, workers=2),
     ],
     gen=dict(module="GenClientResp", cfg=dict(quick="GenClientResp_quick.cfg", thorough="GenClientResp_thorough.cfg"), timeout=300),
     level_text="ClientResp states consumer selection declaratively (PickAllowed: the consumer registered for the response's media type, "
@@ -32,7 +34,11 @@ PROP = dict(
          "header (every spelling of DefaultMediaType - plain, with parameters, upper case - when the header is absent/empty) and over "
          "the client/context lattice, plus seeded random; sequences of 2/3/6 calls whose readers KEEP the ClientResponse and ask it "
          "again after the later calls; the wire-level client lattice (operation client none / bare / own Transport / own Jar / both "
-         "x runtime RoundTripper marker x runtime cookie jar, against a real httptest server) - or one concurrent run: N callers on a fresh Runtime under a TLC-exported gate "
+         "x runtime RoundTripper marker x runtime cookie jar, against a real httptest server); Runtime.Debug on/off x Content-Length/chunked x bodies of 0 B .. 3 MiB (5 MiB thorough); "
+         "one ClientOperation value submitted 2-3 times while the transport-wide context is replaced/cancelled between the calls "
+         "or on two Runtimes (operation compared with a copy taken before each Submit); several Runtimes from client.New alive at "
+         "once with in-place registry edits (set, */*, delete) on one and Submits on the others (fixed patterns + seeded op "
+         "sequences) - or one concurrent run: N callers on a fresh Runtime under a TLC-exported gate "
          "schedule (all 1700 interleavings of 3 gates for N=2,3), a barrier inside the params writers or inside RoundTrip, or free "
          "running (N in {2,8,64}, GOMAXPROCS in {1,2,4,16}). Non-trivial: header not plain or no operation client / any concurrent "
          "case; distinct by hash of the case.",
